@@ -30,6 +30,9 @@ pub struct Case {
     pub prf_reg: u8,
     pub prf_auth: u8,
     pub prf_input: Vec<u8>,
+    /// 0: inputs are hashed by the client / harness; 1: raw 32-byte salt of zeros; 2: of 0xFF; 3: of 0x01 (pre-hashed inputs)
+    #[serde(default)]
+    pub raw_salt: u8,
     pub extra: Option<Value>,
     /// 0 WebAuthn client, 1 CTAP2 level, 2 U2F
     pub level: u8,
@@ -162,11 +165,28 @@ impl Scanner {
     }
 }
 
-fn prf_ext(n: u8, input: &[u8]) -> Option<AuthenticationExtensionsClientInputs> {
-    (n > 0).then(|| AuthenticationExtensionsClientInputs {
-        cred_props: Some(true),
-        prf: Some(AuthenticationExtensionsPrfInputs { eval: Some(AuthenticationExtensionsPrfValues { first: input.to_vec().into(), second: (n > 1).then(|| [input, b"-2"].concat().into()) }), eval_by_credential: None }),
-        prf_already_hashed: None,
+fn raw_salt(sel: u8) -> Option<[u8; 32]> {
+    match sel % 4 {
+        1 => Some([0u8; 32]),
+        2 => Some([0xFF; 32]),
+        3 => Some([1u8; 32]),
+        _ => None,
+    }
+}
+
+fn prf_ext(n: u8, input: &[u8], raw: u8) -> Option<AuthenticationExtensionsClientInputs> {
+    (n > 0).then(|| match raw_salt(raw) {
+        // boundary salts handed over as pre-hashed inputs
+        Some(s) => AuthenticationExtensionsClientInputs {
+            cred_props: Some(true),
+            prf: None,
+            prf_already_hashed: Some(AuthenticationExtensionsPrfInputs { eval: Some(AuthenticationExtensionsPrfValues { first: s.to_vec().into(), second: (n > 1).then(|| [0u8; 32].to_vec().into()) }), eval_by_credential: None }),
+        },
+        None => AuthenticationExtensionsClientInputs {
+            cred_props: Some(true),
+            prf: Some(AuthenticationExtensionsPrfInputs { eval: Some(AuthenticationExtensionsPrfValues { first: input.to_vec().into(), second: (n > 1).then(|| [input, b"-2"].concat().into()) }), eval_by_credential: None }),
+            prf_already_hashed: None,
+        },
     })
 }
 
@@ -185,7 +205,7 @@ pub fn check(ctx: &mut Ctx, c: &Case) -> Result<(), String> {
         0 => {
             let mut client = Client::new_with_custom_tld_provider(auth, HProvider::new(ProviderKind::Default)).allows_insecure_localhost(true);
             let info = block_on(client.authenticator().get_info());
-            let req = cer::creation_options(site.rp, &c.challenge, b"c06-user", "user", &[-7], None, Some(cer::selection(None, false, cer::uv_req(c.uv_req))), prf_ext(c.prf_reg, &c.prf_input));
+            let req = cer::creation_options(site.rp, &c.challenge, b"c06-user", "user", &[-7], None, Some(cer::selection(None, false, cer::uv_req(c.uv_req))), prf_ext(c.prf_reg, &c.prf_input, c.raw_salt));
             let res = match &c.extra {
                 Some(e) => block_on(client.register(site.origin(), req, DefaultClientDataWithExtra(e.clone()))),
                 None => block_on(client.register(site.origin(), req, DefaultClientData)),
@@ -215,7 +235,7 @@ pub fn check(ctx: &mut Ctx, c: &Case) -> Result<(), String> {
                 sc.scan_dbg("Debug of a stored passkey", &pk)?;
             }
             if res.is_ok() {
-                let res2 = block_on(client.authenticate(site.origin(), cer::request_options(site.rp, &c.challenge, None, cer::uv_req(c.uv_req), prf_ext(c.prf_auth, &c.prf_input)), DefaultClientData));
+                let res2 = block_on(client.authenticate(site.origin(), cer::request_options(site.rp, &c.challenge, None, cer::uv_req(c.uv_req), prf_ext(c.prf_auth, &c.prf_input, c.raw_salt)), DefaultClientData));
                 let mut sc2 = Scanner::new(&stored(&store));
                 match &res2 {
                     Ok(a) => {
@@ -237,7 +257,7 @@ pub fn check(ctx: &mut Ctx, c: &Case) -> Result<(), String> {
         }
         1 => {
             let mut auth = auth;
-            let salts = |n: u8| AuthenticatorPrfInputs { eval: (n > 0).then(|| AuthenticatorPrfValues { first: crate::model::util::sha256(&c.prf_input), second: (n > 1).then_some([9u8; 32]) }), eval_by_credential: None };
+            let salts = |n: u8| AuthenticatorPrfInputs { eval: (n > 0).then(|| AuthenticatorPrfValues { first: raw_salt(c.raw_salt).unwrap_or_else(|| crate::model::util::sha256(&c.prf_input)), second: (n > 1).then_some(if c.raw_salt % 4 == 0 { [9u8; 32] } else { [0u8; 32] }) }), eval_by_credential: None };
             let req = make_credential::Request {
                 client_data_hash: crate::model::util::sha256(&c.challenge).to_vec().into(),
                 rp: make_credential::PublicKeyCredentialRpEntity { id: site.effective.into(), name: None },
@@ -363,7 +383,7 @@ fn case() -> impl Strategy<Value = Case> {
         prop_oneof![3 => Just(0u8), 2 => Just(1u8), 1 => Just(2u8)],
         proptest::collection::vec(any::<u8>(), 0..40),
     )
-        .prop_map(|(hmac, counter, verified, uv_req, site, prf_reg, prf_auth, prf_input, extra, level, challenge)| Case { hmac, counter, verified, uv_req, site, prf_reg, prf_auth, prf_input, extra, level, challenge })
+        .prop_map(|(hmac, counter, verified, uv_req, site, prf_reg, prf_auth, prf_input, extra, level, challenge)| Case { hmac, counter, verified, uv_req, site, prf_reg, prf_auth, raw_salt: if challenge.len() % 3 == 0 { (challenge.len() / 3) as u8 } else { 0 }, prf_input, extra, level, challenge })
 }
 
 pub fn run(ctx: &mut Ctx) {
